@@ -1185,7 +1185,7 @@ func (t *c15T) nestedIn(name string, inside bool) bool {
 }
 
 // Shapes the unchanged tree gets wrong (kept out of the main stream, reported to the lead):
-//   - a generic user UNION mentioned twice with different type arguments in a type expression that needs
+//   - a generic user UNION mentioned twice (with different or with the same type arguments) in a type expression that needs
 //     a substitution (forward reference in an and-group, or a type parameter bound by an explicit type
 //     argument): the later mention keeps the placeholder / type parameter (Opt[_P6], Opt[[]T]);
 //   - a forward reference / type parameter inside the arguments of a user generic (record or union) that is
@@ -1201,10 +1201,10 @@ func c15Hazard(it *c15Item) string {
 	}
 	var opts []string
 	it.T.argLists("Opt", &opts)
-	for i := 1; i < len(opts); i++ {
-		if opts[i] != opts[0] {
-			return "C15-generic-union-twice-under-substitution"
-		}
+	if len(opts) >= 2 {
+		// with different OR equal arguments: the revisit guard for unions is keyed by the union's name, the
+		// second mention is never substituted (Opt<Fw>*Opt<Fw> -> Opt[Fw], Opt[_P1])
+		return "C15-generic-union-twice-under-substitution"
 	}
 	if it.T.deepVar(0) {
 		return "C15-nested-user-generics-under-substitution"
